@@ -77,7 +77,8 @@ func coqOptObj(m M, ok bool) string {
 	return "(Some " + cObj(normJSON(m).(map[string]interface{})) + ")"
 }
 
-var otherNames = []string{"other", "extra", "meta", "a", "b", "list", "nested"}
+// further member names, incl. names that are proper prefixes of the protected members' names
+var otherNames = []string{"other", "extra", "meta", "a", "b", "list", "nested", "s", "p", "pub", "public", "publicKe", "serv", "servic", "services", "publicKeys", "alsoKnown"}
 
 func simpleValue(r *rand.Rand, depth int) interface{} {
 	switch k := r.Intn(7); {
@@ -334,7 +335,9 @@ func genC11(seed int64, tier string) []caseOut {
 	var out []caseOut
 	pointers := []string{"/publicKey", "/service", "/publicKey/0", "/publicKey/0/id", "/publicKey/0/publicKeyJwk/x", "/service/0", "/service/0/serviceEndpoint",
 		"/publicKey/-", "/service/-", "/publicKeyX", "/publicKe", "/servic", "/services", "/public~0Key", "/~1publicKey", "/public~1Key", "publicKey", "x/publicKey",
-		"x/service/0", "", "/", "/other", "/other/k", "/other/publicKey", "/arr/0", "/arr/-", "/arr/1", "//publicKey", "/publicKey/", " /publicKey", "/PUBLICKEY"}
+		"x/service/0", "", "/", "/other", "/other/k", "/other/publicKey", "/arr/0", "/arr/-", "/arr/1", "//publicKey", "/publicKey/", " /publicKey", "/PUBLICKEY",
+		// control characters inside later tokens (a pattern match that stops at a line end would miss them)
+		"/publicKey/0/controller\n", "/service/0/a\nb", "/publicKey/\n", "/service/0/\r\nx", "/publicKey/0/publicKeyJwk/x\n", "/service/0/serviceEndpoint\t", "/publicKey/0\u2028"}
 	for i := 0; i < rounds; i++ {
 		doc := M{"publicKey": A{validKey(r, "key1"), validKey(r, "key2")}, "service": A{validService(r, "svc1")},
 			"other": M{"k": 1.0, "publicKey": "decoy"}, "arr": A{"a", "b"}, "alsoKnownAs": A{"https://aka.example/1"}}
@@ -425,13 +428,25 @@ func genC14(seed int64, tier string) []caseOut {
 		var applied M
 		appliedOK := false
 		if err == nil {
-			for _, p := range ps {
+			// serialise every patch first (and other things in between), parse afterwards: the
+			// bytes handed out must stay what they were
+			pbs := make([][]byte, len(ps))
+			for i, p := range ps {
 				if patchvalidator.Validate(p) != nil {
 					allValid = false
 				}
 				pb, e1 := p.Bytes()
 				if e1 != nil {
 					rt = false
+				}
+				pbs[i] = pb
+				if d0, e := document.FromBytes([]byte(`{"x":1}`)); e == nil {
+					d0.Bytes()
+				}
+			}
+			for i, p := range ps {
+				pb := pbs[i]
+				if pb == nil {
 					continue
 				}
 				p2, e2 := patch.FromBytes(pb)
